@@ -10,7 +10,8 @@ want = sys.argv[1:] or sorted(props)
 out = {}
 for pid in want:
     mods = [m for m in cc.PROPS[pid]['modules'] if m.startswith('D128.Props.')] if isinstance(cc.PROPS[pid], dict) else [m for m in cc.PROPS[pid].modules if m.startswith('D128.Props.')]
-    r = subprocess.run(['lake', 'env', 'lean', '--run', 'Audit/GenDeps.lean'] + mods, cwd='/verif/lean', capture_output=True, text=True)
+    genmods = sorted('D128.Gen.' + f[:-5] for f in os.listdir('/verif/lean/D128/Gen') if f.endswith('.lean'))
+    r = subprocess.run(['lake', 'env', 'lean', '--run', 'Audit/GenDeps.lean'] + mods + genmods, cwd='/verif/lean', capture_output=True, text=True)
     deps, calls = set(), {}
     for l in r.stdout.split('\n'):
         m = re.match(r'GENDEPS (\S+) (\S+) \[(.*)\]', l)
